@@ -1,0 +1,29 @@
+//go:build verif
+
+package mtcp
+
+import (
+	"net"
+
+	"github.com/dtn7/dtn7-go/pkg/cla"
+)
+
+// Hooks for the out-of-tree verification harness (build tag verif). Add-only: nothing here is
+// compiled into a normal build.
+
+// VerifStartWithConn starts the client on an already established connection: Start without the
+// dial, so that the harness can hand in a connection whose writes it records and scripts.
+func (client *MTCPClient) VerifStartWithConn(conn net.Conn) {
+	client.reportChan = make(chan cla.ConvergenceStatus)
+	client.stopSyn = make(chan struct{})
+	client.stopAck = make(chan struct{})
+
+	client.conn = conn
+
+	go client.handler()
+}
+
+// VerifHandleSender runs the server's per-connection loop on conn and returns when it ends.
+func (serv *MTCPServer) VerifHandleSender(conn net.Conn) {
+	serv.handleSender(conn)
+}
